@@ -528,13 +528,23 @@ def compare_history(machine, m, history, n_requests, timed=False, request_instan
             i = next((i for i, (x, y) in enumerate(zip(theirs, mine)) if cj(x) != cj(y)), min(len(theirs), len(mine)))
             probs.append({"what": "histories differ as sequences", "at": i, "engine": theirs[i:i + 2], "model": mine[i:i + 2],
                           "lengths": [len(theirs), len(mine)]})
-    # requests published at or after the execution's deadline expire unseen (time-to-live 0)
-    sched = [e[3] for e in model_events(m, True) if e[0] == "LambdaFunctionScheduled" and len(e) > 3] if timed else []
-    expired = len([t for t in sched if dl is not None and ttl_zero(t, dl)])
-    if n_requests != m.get("requests") - expired:
+    # requests whose time limit is over when they are published — the execution's deadline has passed (or does within
+    # the millisecond), or the Task's own limit is 0 s or less (TimeoutSecondsPath): `LambdaFunctionTimedOut` at the
+    # request's own instant — carry a time-to-live of 0 and expire unseen
+    evs = model_events(m, True) if timed else []
+    sched, seen = [], []
+    for i, e in enumerate(evs):
+        if e[0] == "LambdaFunctionScheduled" and len(e) > 3:
+            nxt = evs[i + 1] if i + 1 < len(evs) else None
+            gone = (dl is not None and ttl_zero(e[3], dl)) or (nxt is not None and nxt[0] == "LambdaFunctionTimedOut" and nxt[3] == e[3])
+            sched.append(e[3])
+            if not gone:
+                seen.append(e[3])
+    expired = len(sched) - len(seen)
+    if n_requests != (m.get("requests") - expired if timed else m.get("requests")):
         probs.append({"what": "number of task requests", "engine": n_requests, "model": m.get("requests"), "expired_unseen": expired})
     if timed and request_instants is not None:
-        want = [t for t in sched if dl is None or not ttl_zero(t, dl)]
+        want = seen
         got = [round(float(t), 3) for t in request_instants]
         if (sorted(got) != sorted(want)) if mode == "multiset" else (got != want):
             probs.append({"what": "the instants at which the workers received their requests", "engine": got[:8], "model": want[:8]})
